@@ -191,6 +191,9 @@ func c17Exec(c Case) (outs []string, fails []Failure, tags []string) {
 				if fee == nil {
 					out = "nil"
 					last = nil
+					if !p.NoBaseFee && height > p.EnableHeight {
+						fails = append(fails, Failure{Signature: "C17:no-base-fee-while-enabled", What: fmt.Sprintf("the base fee mechanism is enabled (height %d > enable height %d) and the parent base fee is %s, yet no base fee is computed: the stored base fee stops following the EIP-1559 update", height, p.EnableHeight, p.BaseFee), Case: c[i : i+1]})
+					}
 					return
 				}
 				out = "fee " + fee.String()
